@@ -9,7 +9,7 @@ from cxxheaderparser.errors import CxxParseError
 
 TECHNIQUE = 'Lean 4: interpreter theorems for the bounded trial parse (restores the outer stream, catches its errors) for every client, kernel-decided token sets; declarator round trip decided by correspondence of the parser model and an independent inside-out printer oracle (not a theorem)'
 LEAN_TARGET = "CxxModel.Props.C02"
-THEOREMS = ["Cxx.C02_bounded_restores", "Cxx.C02_trial_error_caught", "Cxx.C02_type_token_sets", "Cxx.rules_supported", "Cxx.C02_pointer_chain", "Cxx.C02_pointer_level", "Cxx.C02_pointer_ops_compose", "Cxx.cvPtr_chain", "Cxx.C02_fundamental_group", "Cxx.C02_fundamental_single", "Cxx.C02_compound_keywords", "Cxx.C02_plain_qualified_name", "Cxx.C02_type_name", "Cxx.C02_declarator_variable", "Cxx.C02_reference_chain", "Cxx.C02_parameters", "Cxx.C02_array_declarator", "Cxx.C02_cv_type", "Cxx.C02_name_plain", "Cxx.C02_name_fundamental", "Cxx.C02_cv_variable", "Cxx.C02_spec_first_tokens", "Cxx.typeSpecR_cv", "Cxx.toplevel_variable_gen", "Cxx.toplevel_function_gen", "Cxx.C02_prefix_ptr", "Cxx.C02_prefix_ref", "Cxx.C02_declaration_general", "Cxx.toplevel_variable_pre", "Cxx.C02_parameters_general", "Cxx.parameter_gen", "Cxx.C02_array_declaration", "Cxx.toplevel_variable_array_pre", "Cxx.parseField_array"]
+THEOREMS = ["Cxx.C02_bounded_restores", "Cxx.C02_trial_error_caught", "Cxx.C02_type_token_sets", "Cxx.rules_supported", "Cxx.C02_pointer_chain", "Cxx.C02_pointer_level", "Cxx.C02_pointer_ops_compose", "Cxx.cvPtr_chain", "Cxx.C02_fundamental_group", "Cxx.C02_fundamental_single", "Cxx.C02_compound_keywords", "Cxx.C02_plain_qualified_name", "Cxx.C02_type_name", "Cxx.C02_declarator_variable", "Cxx.C02_reference_chain", "Cxx.C02_parameters", "Cxx.C02_array_declarator", "Cxx.C02_cv_type", "Cxx.C02_name_plain", "Cxx.C02_name_fundamental", "Cxx.C02_cv_variable", "Cxx.C02_spec_first_tokens", "Cxx.typeSpecR_cv", "Cxx.toplevel_variable_gen", "Cxx.toplevel_function_gen", "Cxx.C02_prefix_ptr", "Cxx.C02_prefix_ref", "Cxx.C02_declaration_general", "Cxx.toplevel_variable_pre", "Cxx.C02_parameters_general", "Cxx.parameter_gen", "Cxx.C02_array_declaration", "Cxx.toplevel_variable_array_pre", "Cxx.parseField_array", "Cxx.C02_class_cv_loop", "Cxx.C02_class_cv_persists", "Cxx.leadCv_loop"]
 ANCHORS = ["parser.py:CxxParser._parse_type", "parser.py:CxxParser._parse_cv_ptr", "parser.py:CxxParser._parse_cv_ptr_or_fn",
            "parser.py:CxxParser._parse_array_type", "parser.py:CxxParser._parse_parameter", "parser.py:CxxParser._parse_parameters",
            "parser.py:CxxParser._parse_pqname", "parser.py:CxxParser._parse_template_specialization", "parser.py:CxxParser._parse_decl",
@@ -20,6 +20,7 @@ RULE = ("type trees: all decorator chains up to depth 3 (quick) / 4 (thorough) o
         "pointer, lvalue/rvalue reference on two bases, plus random trees to depth 6 with templated/qualified names; each "
         "printed by the independent inside-out printer in 8 contexts; case = (type, context); non-trivial = depth >= 1")
 CARRIED_BY = {
+    "cv-qualifiers written after a class / enum body (`key S { … } const volatile a , * b ;`): the declarator loop sets exactly the written qualifiers (any number, any order) on the type, and what was set before an earlier declarator is still there for every later one (the implementation qualifies ONE shared Type object in place)": "theorems C02_class_cv_loop, C02_class_cv_persists (Props/C02.lean) over leadCv_loop (Theorems/LeadCv.lean, induction over the qualifiers); the whole statement per declarator: oracle `class_declarators` + correspondence `parse`",
     "array declarators inside FULL declarations: `S prefix x [ size ] ;` (any type specifier, any declarator prefix not ending in a reference) through parse()'s loop is exactly one on_variable whose type is the array of what the prefix denotes, with EXACTLY the written size tokens (absent for `[]`)": "theorems C02_array_declaration (toplevel_variable_array_pre), parseField_array (Theorems/ArrayDecl.lean); Item.arrayVar / Member.arrayField make them pieces of whole sources; non-vacuity: the example `unsigned long * x [ N + 1 ] ;` at the end of Props/C02.lean",
     "parameter lists over ANY type specifier x ANY declarator prefix: `p1 , ... , pn )` with every pi of the form `S prefix name` decodes to the parameters in order, each with its own name and the type ITS prefix denotes over the type ITS specifier denotes (e.g. `const unsigned long * p , volatile a::b & r )`); with toplevel_function_gen this gives whole function declarations (Item.functionFull)": "theorems C02_parameters_general (parseParameters_gen), parameter_gen (Theorems/ParamGen.lean); non-vacuity: the last example of Props/C02.lean",
     "declarator prefixes as a second, independent interface (PrefixSpec, quantified over token copies): pointer chains of any length and pointer chains ending in & / && are instances; `S prefix x ;` for ANY TypeSpecR x ANY PrefixSpec through parse()'s loop is exactly one on_variable with the type the prefix denotes over the type S denotes — e.g. `const unsigned long * const & r ;`": "theorems C02_prefix_ptr, C02_prefix_ref, C02_declaration_general (toplevel_variable_pre) (Theorems/PrefixSpec.lean, DeclPre.lean; Item.variablePre / Member.fieldPre in DeclGenItems.lean); non-vacuity: the second example at the end of Props/C02.lean",
